@@ -45,6 +45,7 @@ var (
 	ErrInvalidAutogenTx     = errors.New("found invalid autogen-tx")
 	ErrInvalidCoinbaseTx    = errors.New("found invalid coinbase-tx")
 	ErrUTXODuplicated       = errors.New("found duplicated utxo in same tx")
+	ErrRefTxNotOnChain      = errors.New("block transaction refers to a transaction that is only pending here")
 	ErrRWSetInvalid         = errors.New("RWSet of transaction invalid")
 	ErrACLNotEnough         = errors.New("ACL not enough")
 	ErrInvalidSignature     = errors.New("the signature is invalid or not match the address")
@@ -1311,6 +1312,27 @@ func (t *State) processUnconfirmTxs(block *pb.InternalBlock, batch kvdb.Batch, n
 		return nil, nil, loadErr
 	}
 	t.log.Info("unconfirm table size", "unconfirmTxCount", t.tx.UnconfirmTxAmount)
+	// the block's transactions may build only on the chain and on earlier transactions of the block:
+	// an output or key version that exists here merely because its creator is pending in this node
+	// is not there for a node that replays the chain
+	seenInBlock := map[string]bool{}
+	for _, tx := range block.Transactions {
+		for _, txInput := range tx.TxInputs {
+			refTxid := string(txInput.RefTxid)
+			if _, pending := unconfirmTxMap[refTxid]; pending && !seenInBlock[refTxid] {
+				t.log.Warn("block tx spends an output of a pending tx", "txid", utils.F(tx.Txid), "refTxid", utils.F(txInput.RefTxid))
+				return nil, nil, ErrRefTxNotOnChain
+			}
+		}
+		for _, txInputExt := range tx.TxInputsExt {
+			refTxid := string(txInputExt.RefTxid)
+			if _, pending := unconfirmTxMap[refTxid]; pending && !seenInBlock[refTxid] {
+				t.log.Warn("block tx reads a key version of a pending tx", "txid", utils.F(tx.Txid), "refTxid", utils.F(txInputExt.RefTxid))
+				return nil, nil, ErrRefTxNotOnChain
+			}
+		}
+		seenInBlock[string(tx.Txid)] = true
+	}
 	undoDone := map[string]bool{}
 	unconfirmToConfirm := map[string]bool{}
 	for txid, unconfirmTx := range unconfirmTxMap {
